@@ -32,7 +32,25 @@ def run(res, tier, seed):
     batches = c04.build(rng, tier)[: (3 if tier == 'quick' else 40)]
     for i in range(3 if tier == 'quick' else 30):
         tree = S.gen_tree(rng, small=True)
-        batches.append((tree, upload_cases(rng, tree)))
+        # plus a read of EVERY name of the tree (files, links, links reached through linked directories, directories, missing
+        # neighbours) with GET / HEAD / Range: a read path that creates what it does not find changes the manifest
+        reads = []
+        for n in tree.names + [b'sub', b'emptydir', b'alias', b'alias/missing.txt', b'real/deep/missing.lnk', b'missing.txt']:
+            t = '/' + n.decode('utf-8', 'surrogateescape')
+            for m, hs in (('GET', []), ('HEAD', []), ('GET', [('Range', 'bytes=0-0')]), ('GET', [('Range', 'bytes=0-99999')])):
+                reads.append(K.mk(tree, m, t, hs, entry=rng.choice(['proc', 'preq']), kind='read-every-name'))
+        batches.append((tree, upload_cases(rng, tree) + reads))
+    for shape in range(2):
+        # the tree shape in which the kernel's and a textual resolution of a relative link disagree, always present
+        tree = S.gen_tree(rng, small=True)
+        if b'alias/rel.lnk' not in tree.names:
+            root = tree.cwd + b'/'
+            tree.file(root + b'real/data.txt', b'data next to real/deep').file(root + b'real/deep/own.txt', b'own')
+            tree.link(root + b'real/deep/rel.lnk', b'../data.txt').link(root + b'alias', b'real/deep')
+            tree.names += [b'alias/own.txt', b'alias/rel.lnk', b'real/deep/rel.lnk']
+        reads = [K.mk(tree, m, '/' + n.decode('utf-8', 'surrogateescape'), hs, entry=e, kind='read-every-name')
+                 for n in tree.names for m, hs in (('GET', []), ('HEAD', []), ('GET', [('Range', 'bytes=0-0')])) for e in ('proc', 'preq')]
+        batches.append((tree, reads))
     results = K.run_batches(batches, with_model=WITH_MODEL)
     for c, r, il, ml in results:
         res.evaluations += 1
